@@ -1,6 +1,7 @@
 package main
 
 import (
+	"encoding/hex"
 	"fmt"
 	"math"
 	"strings"
@@ -34,6 +35,45 @@ func (o OptSet) Wire() string {
 		}
 	}
 	return "o=" + strings.Join(parts, ",")
+}
+
+// ParseOpts reads the wire form back (for recipes).
+func ParseOpts(w string) (OptSet, error) {
+	if !strings.HasPrefix(w, "o=") {
+		return nil, fmt.Errorf("bad opts %q", w)
+	}
+	body := w[2:]
+	out := OptSet{}
+	if body == "" {
+		return out, nil
+	}
+	for _, it := range strings.Split(body, ",") {
+		switch {
+		case it == "M" || it == "S" || it == "B" || it == "C":
+			out = append(out, OptItem{Kind: it})
+		case strings.HasPrefix(it, "P"):
+			var u uint64
+			if _, err := fmt.Sscanf(it[1:], "%016x", &u); err != nil {
+				return nil, err
+			}
+			out = append(out, OptItem{Kind: "P", Prec: math.Float64frombits(u)})
+		case strings.HasPrefix(it, "K"):
+			keys := []string{}
+			if it != "K" {
+				for _, h := range strings.Split(it[1:], "/") {
+					b, err := hex.DecodeString(h)
+					if err != nil {
+						return nil, err
+					}
+					keys = append(keys, string(b))
+				}
+			}
+			out = append(out, OptItem{Kind: "K", Keys: keys})
+		default:
+			return nil, fmt.Errorf("bad opt item %q", it)
+		}
+	}
+	return out, nil
 }
 
 func (o OptSet) Go() []jd.Option {
